@@ -31,7 +31,7 @@ func init() {
 		Run:         runC15,
 		Floors: func(tier string) map[string]int {
 			return map[string]int{"drops": 100, "recreates": 100, "drop_seen_by_connected": 20, "drop_seen_by_stalled": 8, "drop_seen_by_restarted": 8, "drop_seen_by_fresh": 8, "primary_restarts_after_drop": 8, "empty_recreate_unlinked": 10,
-				"recreate_replicated": 50, "page_size_changed_on_recreate": 10, "drop_with_pending_wal": 5, "tombstones_decoded": 100, "primary_restarts_before_drop": 8, "lag_rejoined_across_recreate": 4}
+				"recreate_replicated": 50, "page_size_changed_on_recreate": 10, "drop_with_pending_wal": 5, "tombstones_decoded": 100, "primary_restarts_before_drop": 8, "lag_rejoined_across_recreate": 4, "promote_recreated_on_new_primary": 3}
 		},
 	})
 }
